@@ -32,7 +32,7 @@ class IllTyped(Exception):
     pass
 
 
-def check(n, trigger=False):
+def check(n, trigger=False, noerase=False):
     """value type of the stream: 'int' or 'none' (never_stream); raises IllTyped for pipelines that do not compile / are out of scope"""
     k = n.kind
     if k in LEAVES:
@@ -42,13 +42,15 @@ def check(n, trigger=False):
     if k == "take_until":
         if len(n.kids) != 2:
             raise IllTyped(k)
-        v = check(n.kids[0], trigger)
-        check(n.kids[1], True)
+        v = check(n.kids[0], trigger, noerase)
+        check(n.kids[1], True, True)      # trigger_next_receiver answers no get_scheduler query
         return v
     if k in UNARY:
         if len(n.kids) != 1:
             raise IllTyped(k)
-        v = check(n.kids[0], trigger)
+        if k == "type_erase" and noerase:
+            raise IllTyped("type_erase below stop_immediately / in trigger position does not compile (no get_scheduler on the receivers)")
+        v = check(n.kids[0], trigger, noerase or k == "stop_imm")
         if v == "none" and k in ("transform", "filter", "stop_imm", "type_erase"):
             raise IllTyped("%s over never_stream" % k)
         return v
